@@ -49,7 +49,7 @@ def loop_domain(body, header, lb):
         if cs and cs.method == 'next' and cs.trait and cs.trait.endswith('iter::Iterator') and body.dominates(bb, max(lb)) or \
                 (cs and cs.method == 'next' and cs.trait and cs.trait.endswith('Iterator') and bb == header):
             it = peel(body.op_expr(cs.args[0]))
-            var = ('field', ('variant', body.call_expr(cs), 'Some'), '0')
+            var = mir.mk_try(body.call_expr(cs))
             if it[0] == 'aggr' and it[2].endswith('ops::Range::Range'):
                 f = dict(it[3])
                 return dict(kind='Range', start=f['start'], end=f['end'], inclusive=False, var=var, next=cs)
@@ -184,7 +184,7 @@ def rule_once(ctx):
     # fetch call: the call in the loop whose result's Some payload is the block argument
     for cs in deliver:
         args = b.arg_exprs(cs)
-        blk = peel(args[-2], calls=False)
+        blk = peel(args[-2], calls=False, tries=False)
         hgt = peel(args[-1], calls=False)
         # block must be payload Some of payload Ok of a fetch call taking the loop variable
         fetch = None
@@ -192,10 +192,11 @@ def rule_once(ctx):
         chain = []
         while x[0] in ('field', 'variant', 'try'):
             chain.append(x[2] if x[0] != 'try' else '?')
-            x = peel(x[1], calls=False)
+            x = peel(x[1], calls=False, tries=False)
         if x[0] == 'call':
             fetch = x
-        okb = fetch is not None and 'Some' in chain and ('Ok' in chain or '?' in chain)
+        # two success payloads: the Ok of the fetch and the Some of the optional block
+        okb = fetch is not None and sum(1 for c in chain if c in ('?', 'Ok', 'Some')) == 2
         ctx.check('once', 'block-arg-is-fetched-block', okb, cs,
                   'on_block receives %s' % show(blk))
         var = dom['var']
@@ -547,7 +548,7 @@ def rule_args(ctx):
     dflt = prog.one('BlockHeightRange::is_default')
     ctx.check('args', 'default-range', canon(dflt.ret_expr()) == 'phi(false | is_none(self.end))', dflt, 'is_default = start == 0 && end.is_none()')
     g = [(canon(dflt.rvalue_expr(d[3])) if d[0] == 'assign' else canon(dflt.call_expr(d[2])), util.guards_at(dflt, d[1])) for d in dflt.defs().get(0, [])]
-    ctx.check('args', 'default-range-guards', sorted(g) == sorted([('false', ['self.start != 0']), ('is_none(self.end)', ['self.start == 0'])]), dflt, '%s' % g)
+    ctx.check('args', 'default-range-guards', sorted(g) == sorted([('false', ['0 < self.start']), ('is_none(self.end)', ['self.start <= 0'])]), dflt, '%s' % g)
     wr = [(b.path, ch) for b in prog.bodies.values() for bb, idx, pl, rv, st in b.stores()
           for el in pl['p'] if el['k'] == 'field' and (el.get('of') or '').endswith('BlockHeightRange')]
     ctx.check('args', 'range-immutable', not wr, None, 'stores to BlockHeightRange fields: %s' % wr)
